@@ -11,6 +11,7 @@ Everything here is about `Gen.seccomp`, `Gen.prctl`, `Gen.setNoNewPrivs`, `Gen.s
 theorem gen_seccomp_nil {U : Unsupported} {flags : Nat} {uargs : Option Prog} {w w' : World}
     (h : Gen.seccomp U 1 flags uargs w = (GoErr.nil, w')) :
     ∃ p, uargs = some p ∧ (p.ok = true ∧ p.len ≠ 0 ∧ p.len ≤ BPF_MAXINSNS) ∧
+      w.seccompAvailable = true ∧
       flags &&& knownFlags = flags ∧
       (flags &&& FLAG_TSYNC ≠ 0 → ∀ t ∈ w.live, t ≠ (schedStep w).cur →
         (w.thr t).filters.isSuffixOf (w.thr (schedStep w).cur).filters = true) ∧
@@ -39,12 +40,12 @@ theorem gen_seccomp_nil {U : Unsupported} {flags : Nat} {uargs : Option Prog} {w
     rw [if_pos this] at h
     simp only [Prod.mk.injEq] at h
     exact absurd h.1 (by simp)
-  | attachedOne p hp hok hflags hts hpriv =>
+  | attachedOne p hp hok havail hflags hts hpriv =>
     simp only [ne_eq, not_true_eq_false, if_false, and_false, Prod.mk.injEq, true_and] at h
-    exact ⟨p, hp, hok, hflags, fun h' => absurd hts h', hpriv, .inl ⟨hts, h.symm⟩⟩
-  | attachedAll p hp hok hflags hts hsync hpriv =>
+    exact ⟨p, hp, hok, havail, hflags, fun h' => absurd hts h', hpriv, .inl ⟨hts, h.symm⟩⟩
+  | attachedAll p hp hok havail hflags hts hsync hpriv =>
     simp only [ne_eq, not_true_eq_false, if_false, and_false, Prod.mk.injEq, true_and] at h
-    exact ⟨p, hp, hok, hflags, fun _ => hsync, hpriv, .inr ⟨hts, h.symm⟩⟩
+    exact ⟨p, hp, hok, havail, hflags, fun _ => hsync, hpriv, .inr ⟨hts, h.symm⟩⟩
 
 /-- the `seccomp()` wrapper: a non-nil result leaves every thread as it was -/
 theorem gen_seccomp_err {U : Unsupported} {flags : Nat} {uargs : Option Prog} {w w' : World} {err : GoErr}
@@ -64,10 +65,10 @@ theorem gen_seccomp_err {U : Unsupported} {flags : Nat} {uargs : Option Prog} {w
     rw [if_pos this] at h
     simp only [Prod.mk.injEq] at h
     exact h.2.symm
-  | attachedOne p hp hok hflags hts hpriv =>
+  | attachedOne p hp hok havail hflags hts hpriv =>
     simp only [ne_eq, not_true_eq_false, if_false, and_false, Prod.mk.injEq] at h
     exact absurd h.1.symm hne
-  | attachedAll p hp hok hflags hts hsync hpriv =>
+  | attachedAll p hp hok havail hflags hts hsync hpriv =>
     simp only [ne_eq, not_true_eq_false, if_false, and_false, Prod.mk.injEq] at h
     exact absurd h.1.symm hne
 
@@ -77,13 +78,14 @@ theorem gen_seccomp_declines {U : Unsupported} {flags : Nat} {uargs : Option Pro
         (∃ p, uargs = some p ∧ (p.ok = false ∨ p.len = 0 ∨ p.len > BPF_MAXINSNS)) ∨
         (((schedStep w).thr (schedStep w).cur).nnp = false ∧ w.privileged = false) ∨
         (flags &&& FLAG_TSYNC ≠ 0 ∧ ∃ t ∈ w.live, t ≠ (schedStep w).cur ∧
-          (w.thr t).filters.isSuffixOf (w.thr (schedStep w).cur).filters = false)) :
+          (w.thr t).filters.isSuffixOf (w.thr (schedStep w).cur).filters = false) ∨
+        w.seccompAvailable = false) :
     (Gen.seccomp U 1 flags uargs w).1 ≠ GoErr.nil := by
   intro hnil
   have h : Gen.seccomp U 1 flags uargs w = (GoErr.nil, (Gen.seccomp U 1 flags uargs w).2) := by
     rw [← hnil]
-  obtain ⟨p, hp, hok, hflags, hsync, hpriv, _⟩ := gen_seccomp_nil h
-  rcases hwhy with h1 | h2 | ⟨q, hq, hbad⟩ | ⟨hn, hpv⟩ | ⟨hts, t, ht, htc, hdiv⟩
+  obtain ⟨p, hp, hok, havail, hflags, hsync, hpriv, _⟩ := gen_seccomp_nil h
+  rcases hwhy with h1 | h2 | ⟨q, hq, hbad⟩ | ⟨hn, hpv⟩ | ⟨hts, t, ht, htc, hdiv⟩ | hna
   · exact h1 hflags
   · rw [h2] at hp; cases hp
   · rw [hq] at hp; cases hp
@@ -96,6 +98,7 @@ theorem gen_seccomp_declines {U : Unsupported} {flags : Nat} {uargs : Option Pro
     · rw [hpv] at h; cases h
   · have := hsync hts t ht htc
     rw [hdiv] at this; cases this
+  · rw [hna] at havail; cases havail
 
 /-- the wrapper never changes the world: it only interprets the kernel's answer -/
 theorem gen_seccomp_world (U : Unsupported) (op flags : Nat) (uargs : Option Prog) (w : World) :
@@ -122,6 +125,7 @@ theorem gen_seccomp_log (U : Unsupported) (flags : Nat) (uargs : Option Prog) (w
 
 /-- when nothing stands in the way the wrapper returns nil -/
 theorem gen_seccomp_ok {U : Unsupported} {flags : Nat} {p : Prog} {w : World}
+    (havail : w.seccompAvailable = true)
     (hflags : flags &&& knownFlags = flags)
     (hok : p.ok = true ∧ p.len ≠ 0 ∧ p.len ≤ BPF_MAXINSNS)
     (hpriv : ((schedStep w).thr (schedStep w).cur).nnp = true ∨ w.privileged = true)
@@ -134,7 +138,7 @@ theorem gen_seccomp_ok {U : Unsupported} {flags : Nat} {p : Prog} {w : World}
   cases hk with
   | declined e he hwhy =>
     exfalso
-    rcases hwhy with h | h | ⟨q, hq, hbad⟩ | ⟨h1, h2⟩
+    rcases hwhy with h | h | ⟨q, hq, hbad⟩ | ⟨h1, h2⟩ | hna
     · exact h hflags
     · cases h
     · cases hq
@@ -145,11 +149,12 @@ theorem gen_seccomp_ok {U : Unsupported} {flags : Nat} {p : Prog} {w : World}
     · rcases hpriv with h | h
       · rw [h1] at h; cases h
       · rw [h2] at h; cases h
+    · rw [hna] at havail; cases havail
   | refused t hts ht hdiv =>
     exfalso
     have := hsync hts t ht.1 ht.2
     rw [hdiv] at this; cases this
-  | attachedOne q hq hok' hflags' hts hpriv' =>
+  | attachedOne q hq hok' havail' hflags' hts hpriv' =>
     simp only [ne_eq, not_true_eq_false, if_false, and_false]
-  | attachedAll q hq hok' hflags' hts hsync' hpriv' =>
+  | attachedAll q hq hok' havail' hflags' hts hsync' hpriv' =>
     simp only [ne_eq, not_true_eq_false, if_false, and_false]
